@@ -18,7 +18,7 @@ def check(ctx, src):
     mc, cp, rm = comp.mc, comp.cp, comp.rm
     me = mc.func("macroexpand")
     ctx.require(me is not None, "macroexpand not found")
-    m = pyq.contains(me, lambda n: isinstance(n, ast.Assign) and norm(n.targets[0]) == "m" and isinstance(n.value, ast.BoolOp))
+    m = pyq.contains(me, lambda n: isinstance(n, ast.Assign) and isinstance(n.value, ast.BoolOp) and "compiler.extra_macros" in flat(n.value))
     ctx.need(m is not None, "macroexpand: lookup expression not found")
     t = flat(m.value)
     ctx.check("for d in [compiler.extra_macros, *(s['macros'] for s in reversed(compiler.local_state_stack))] if fn in d" in t, "MAC-ORDER", f"{MC}|macroexpand|compiler part", "extra macros must be consulted first, then local states from innermost to outermost",
